@@ -204,6 +204,10 @@ package transport
 //@   ensures [C18:closed-for-good] c.closed && !held && nAcq == 1
 //@   ensures [C18:socket-closed-once-by-the-first-close] nSock == (old(c.closed) ? 0 : 1)
 //@   callsite Close?: [C18:socket-closed-outside-the-lock] !held && arg0 == c.c
+//@   ghost nCancel int = 0
+//@   oncall cancelCause?: nCancel = nCancel + 1
+//@   callsite cancelCause?: [C18,C05:waiters-released-with-the-cause] arg0 == (err0 == nil ? errPipelineConnClosed : err0)
+//@   ensures [C18,C05:first-close-releases-the-waiting-exchanges] nCancel == (old(c.closed) ? 0 : 1)
 
 //@ func (c *pipelineConn) deleteQueueC(qid uint16)
 //@   props C05
@@ -616,6 +620,10 @@ package transport
 //@   ensures [C18:closed-for-good] t.closed && err == nil && !held && nAcq == 1
 //@   ensures [C18:second-close-does-nothing] old(t.closed) ==> nSock == 0
 //@   callsite Close?: [C18:tracked-sockets-closed-under-the-lock] held && !old(t.closed) && t.closed
+//@   ghost nCancel int = 0
+//@   oncall cancelCause?: nCancel = nCancel + 1
+//@   callsite cancelCause?: [C18:with-the-closed-transport-cause] arg0 == ErrClosedTransport
+//@   ensures [C18:first-close-aborts-dials-in-progress] nCancel == (old(t.closed) ? 0 : 1)
 //@   loop 1:
 //@     modifies nothing
 //@     invariant held && t.closed && nSock >= 0 && (old(t.closed) ==> nSock == 0)
@@ -634,6 +642,13 @@ package transport
 //@   ensures [C18:closed-for-good] t.closed && err == nil && !held && nAcq == 1
 //@   ensures [C18:connection-closed-once-by-the-first-close] nConn == ((!old(t.closed) && t.c != nil) ? 1 : 0)
 //@   callsite CloseWithError?: [C18:connection-closed-under-the-lock] held && arg0 == t.c
+// the first close also cancels the transport's context with ErrClosedTransport - whether or not a connection
+// exists: that is what aborts a dial in progress and releases the exchanges waiting for it
+//@   ghost nCancel int = 0
+//@   oncall cancelCtx?: nCancel = nCancel + 1
+//@   dyncall cancelCtx: modifies nothing
+//@   callsite cancelCtx?: [C18:with-the-closed-transport-cause-under-the-lock] held && arg0 == ErrClosedTransport
+//@   ensures [C18:first-close-aborts-dials-in-progress] nCancel == (old(t.closed) ? 0 : 1)
 
 // what a caller may assume of any transport's exchange: a reply is a decoded message made of objects of its own
 // (every implementation returns what UnpackMsg built from the bytes it read), or an error and no message
